@@ -214,9 +214,11 @@ theorem C07_send_lens (c : Cfg) (p : Path) (b : Bytes) :
 /-! ## the tree under examination: premises decided on the regenerated numbers -/
 
 /-- The two independent extractions (measured on the compiled code / evaluated from the source
-    text) agree. -/
+    text) agree (the WriteStreamData slice size only up to the frame limit: a larger slice is
+    refused by `Frame.Encode` before it can be observed). -/
 theorem C07_gen_agree :
-    Gen.C07.tcpBuf = Gen.C07Ast.tcpBuf ∧ Gen.C07.rechunk = Gen.C07Ast.rechunk ∧
+    Gen.C07.tcpBuf = Gen.C07Ast.tcpBuf ∧
+    min Gen.C07.rechunk Gen.C07.maxPayload = min Gen.C07Ast.rechunk Gen.C07.maxPayload ∧
     Gen.C07.exitBuf = Gen.C07Ast.exitBuf ∧ Gen.C07.fwdBuf = Gen.C07Ast.fwdBuf ∧
     Gen.C07.shoutBuf = Gen.C07Ast.shoutBuf ∧ Gen.C07.sherrBuf = Gen.C07Ast.shoutBuf ∧
     Gen.C07.shptyBuf = Gen.C07Ast.shptyBuf ∧ Gen.C07.fupBuf = Gen.C07Ast.fupBuf ∧
@@ -298,11 +300,11 @@ theorem C07_old_shell_stdin_refuted (n : Nat) (hn : 16355 < n) :
       ≠ some (List.replicate n 0) := by
   have hne : (List.replicate n (0 : UInt8)) ≠ [] := by
     intro h; have := congrArg List.length h; simp at this; omega
-  simp only [sendPieces, framesOf, Bool.false_eq_true, if_false, gate, Sealed.length]
-  have : (hdrOf ⟨n, 1, false⟩ ++ List.replicate n (0 : UInt8)).length + 28 = n + 29 := by
-    simp [hdrOf_length]; omega
-  rw [this, if_neg (by omega)]
-  simp only [Bool.false_eq_true, if_false, receive]
+  have hlen : (hdrOf ⟨n, 1, false⟩ ++ List.replicate n (0 : UInt8)).length + 28 = n + 29 := by
+    simp [hdrOf]
+  have hg : gate 16384 [(⟨⟨0, hdrOf ⟨n, 1, false⟩ ++ List.replicate n 0⟩, 0, n + 29⟩ : Frame)] = ([], false) := by
+    simp only [gate]; rw [if_neg (by omega)]
+  simp only [sendPieces, framesOf, Bool.false_eq_true, if_false, Sealed.length, hlen, hg, receive]
   intro h; injection h with h; exact hne h.symm
 
 /-- The shell output paths before the repair (`buf := make([]byte, 16*1024)`): a read that fills
